@@ -12,7 +12,7 @@ import (
 func init() {
 	register("C01", &ruleSet{
 		run:    runC01,
-		floors: map[string]int{"O1": 2, "O2": 4, "O3": 2, "O4": 4, "O5": 2, "O6": 7, "O7": 1},
+		floors: map[string]int{"O1": 2, "O2": 4, "O3": 2, "O4": 4, "O5": 2, "O6": 7, "O7": 1, "O8": 2},
 		explain: "Decides the premises from which the atomic-gate property follows by the short paper argument in DESIGN.md (releases only lower the counter; acquires and " +
 			"limit changes are serialised; the decision compares counter and limit in the right direction; the limit never drops below 1): (O1) every call of Strategy.TryAcquire " +
 			"and every post-construction call of Strategy.SetLimit inside a limiter holds that limiter's mutex exclusively; (O2) in each non-partitioned strategy every granting " +
@@ -104,6 +104,10 @@ func runC01(p *Prog, l *Ledger) {
 	l.Rule("O4", "floor: every store of a non-partitioned strategy's limit is proved >= 1")
 	l.Rule("O5", "result contract: TryAcquire returns (acquired token, true) or (not-acquired token, false)")
 	l.Rule("O7", "the limiter's answer is the gate's: every return of a limiter function that asks its strategy comes after Strategy.TryAcquire, and it refuses only on that call's refusing edge")
+	l.Rule("O8", "the gate's counter and limit are accessed under one discipline (decided by the C17/O1 rule on the same tree): all atomic, or all under the strategy's mutex - a release that decrements atomically while the grant increments under the mutex loses updates")
+	importObligations(p, l, "C17", "O8", func(o *Obligation) bool {
+		return o.Rule == "O1" && (strings.Contains(o.Key, "strategy.SimpleStrategy.") || strings.Contains(o.Key, "strategy.PreciseStrategy."))
+	})
 	l.Rule("O6", "conservation prerequisites (decided by the C02 rules on the same tree): a token granted to the default limiter is handed to the returned listener or released on every path; every listener outcome releases it exactly once")
 	l.NotCovered = []string{"the linearisation argument is on paper (DESIGN.md 5/C01)", "int32 truncation of limits >= 2^31", "over-admission by design when several limiters share one strategy object"}
 	locks := p.Locksets()
